@@ -448,8 +448,12 @@ Definition pair_in (d : coord) (l : list (Z * Z)) : bool :=
   | _ => false
   end.
 Definition hex_offsets (c0 : coord) : list (Z * Z) :=
-  let odd := negb (nth (Z.to_nat gen_hex_parity_axis) c0 0 mod 2 =? 0) in
-  if Bool.eqb odd gen_hex_odd_uses_even_table then gen_hex_even_offsets else gen_hex_odd_offsets.
+  (* same reading of HexGrid._connect_cells_2d as Model/CellGeom.v: offsets = A if <test i> else B, the test
+     translated from the source (gen_hex_select), gen_hex_body_is_even_table says which table A is *)
+  let p := nth (Z.to_nat gen_hex_parity_axis) c0 0 in
+  if gen_hex_select p
+  then (if gen_hex_body_is_even_table then gen_hex_even_offsets else gen_hex_odd_offsets)
+  else (if gen_hex_body_is_even_table then gen_hex_odd_offsets else gen_hex_even_offsets).
 Definition dir_ok (geom : Z) (c0 d : coord) : bool :=
   if geom =? 2 then pair_in d (hex_offsets c0)
   else forallb (fun x => (-1 <=? x) && (x <=? 1)) d
